@@ -11,6 +11,7 @@ import (
 
 	el "github.com/hashicorp/eventlogger"
 	"github.com/hashicorp/eventlogger/filters/encrypt"
+	"github.com/mitchellh/copystructure"
 	wrapping "github.com/hashicorp/go-kms-wrapping/v2"
 	"verif/hk"
 	"verif/vrt"
@@ -279,6 +280,16 @@ func (r *rotPayload) Wrapper() wrapping.Wrapper { return r.w }
 func (r *rotPayload) HmacSalt() []byte          { return r.salt }
 func (r *rotPayload) HmacInfo() []byte          { return r.info }
 
+// sealed has only unexported fields: a reflective copy loses them, the copier registered for it keeps them.
+type sealed struct {
+	n int
+	s string
+}
+
+func init() {
+	copystructure.Copiers[reflect.TypeOf(sealed{})] = func(v interface{}) (interface{}, error) { return v, nil }
+}
+
 // docStr / docBytes are defined types with string / []byte underneath; docHolder carries a decoded document.
 type docStr string
 type docBytes []byte
@@ -466,6 +477,24 @@ func Specials(prop, cls string) *hk.Result {
 		}()
 		res.Outcome("special defined-types")
 	}
+	// a type the application registered a copier for (copystructure.Copiers is the library's documented
+	// extension point for types a reflective copy cannot handle): its values arrive intact
+	if cls == "copy" {
+		count()
+		type withSealed struct {
+			T sealed
+			P *sealed
+			S string `class:"public"`
+		}
+		in := &withSealed{T: sealed{n: 41, s: "kept"}, P: &sealed{n: 42, s: "kept too"}, S: "pub"}
+		out, err := mk().Process(ctx, &el.Event{Type: "t", Payload: in})
+		if err != nil || out == nil {
+			fail("registered copier", "Process failed: %v", err)
+		} else if o := out.Payload.(*withSealed); o.T != in.T || o.P == nil || *o.P != *in.P {
+			fail("registered copier", "a value of a type with a registered copier was not preserved: got %+v / %+v, want %+v / %+v", o.T, o.P, in.T, *in.P)
+		}
+		res.Outcome("special registered-copier")
+	}
 	// what a decoded document holds: untagged maps whose values are lists (with strings, []byte, nil, lists,
 	// maps, structs inside), values of defined string / []byte types, pointers to strings / []byte, nil.
 	// All of it is unclassified data (README: "all of its fields will be filtered as secret data").
@@ -473,6 +502,7 @@ func Specials(prop, cls string) *hk.Result {
 		mkDoc := func() (interface{}, interface{}, interface{}, interface{}) {
 			ps, pb := "CANARYdocPS", []byte("CANARYdocPB")
 			ps2 := "CANARYdocPS2"
+			pnb := docBytes(nil)
 			doc := map[string]interface{}{
 				"l":   []interface{}{"CANARYdocL1", []byte("CANARYdocL2"), nil, []interface{}{"CANARYdocL3", nil}, map[string]interface{}{"k": "CANARYdocL4"}, &struct{ X string }{"CANARYdocL5"}, 7, true},
 				"n":   docStr("CANARYdocN"),
@@ -482,6 +512,11 @@ func Specials(prop, cls string) *hk.Result {
 				"pb":  &pb,
 				"nil": nil,
 				"i":   42,
+				// nil values of defined []byte types (json.RawMessage(nil) is what an absent member decodes to)
+				"nilraw": json.RawMessage(nil),
+				"nilnb":  docBytes(nil),
+				"lnil":   []interface{}{docBytes(nil), json.RawMessage(nil)},
+				"pnil":   &pnb,
 			}
 			return &docHolder{M: doc}, doc2(), &struct{ M map[string]*string }{M: map[string]*string{"p": &ps2, "nilp": nil}}, &struct{ M map[string]docStr }{M: map[string]docStr{"n": "CANARYdocMN"}}
 		}
